@@ -82,6 +82,7 @@ func init() {
 		Title:       "Containment and winding queries agree with the path's winding number",
 		Explanation: "Decides: in RayIntersections the per-segment pre-filter hull is a pure Min/Max tree over start, end and every decoded control point (arc: centre∓max(rx,ry)), so no segment the ray can cross is skipped; Contains returns fillRule.Fills(n) for n from Windings(x, y); Windings/Crossings visit every element of Split(); Fills agrees with the rule definitions. Since batch 11 also: over all paths of the hit loops of windings and Crossings, a counted hit is non-tangent or a vertex whose sides agree, an end-point hit is always remembered or compared, overlapping hits have no effect; no direction is taken from a cubic derivative that can be zero. NOT decided: the intersection arithmetic of the primitives, CCW's index logic, Filling's nesting logic.",
 		Run: func(c *core.Ctx, r *core.Report) {
+			E9EllipseQuadraticMirror(c, r)
 			E3EllipseFrameRotation(c, r) // the radii correction every stored arc goes through
 			E9DirectionFallbackSymmetric(c, r)
 			E8Units(c, r) // degrees and radians: every property that handles arcs or rotations
@@ -159,6 +160,7 @@ func init() {
 		Explanation: "Decides, for every input string: (1) each index of the input bytes in ParseSVGPath/skipCommaWhitespace is dominated by a bound check on every path through the function (path-sensitive guard facts over the AST, short-circuit aware); the per-command number-count table fits the number buffer; (2) no explicit panic(...) in the canvas module is reachable in the VTA call graph from ParseSVGPath or ParseSVG (restricted to the import closure of package canvas, since no value of another package's type can exist in that call tree) except the reviewed sites listed in the evidence. NOT decided: round-trip equality and number minification, implicit run-time panics other than the named index guards, termination, panics inside third-party Go dependencies (font parsing, shaping).",
 		Assumptions: []string{"cursor variables are non-negative (initialised to 0 and only incremented)", "strconv.ParseFloat (tdewolff/parse) returns 0 <= n <= len(b)", "third-party dependencies are trusted not to panic"},
 		Run: func(c *core.Ctx, r *core.Report) {
+			E11SVGTransformTable(c, r)   // ParseSVG never panics: the arity table of the transform functions
 			E3EllipseFrameRotation(c, r) // the radii correction every stored arc goes through
 			E11MagnitudeTestOnAbs(c, r)
 			E4SliceLengthGuarded(c, r)
@@ -210,6 +212,7 @@ func init() {
 		Explanation: "Decides, for every sequence of writer calls, the structural clauses of the PDF writer: bytes reach the io.Writer only through write/writeBytes which add the returned count to pos; every 'n 0 obj' emission is immediately preceded by recording pos at index n-1; the reserved catalog/info/page-tree numbers agree with trailer Root/Info, catalog Pages and every page's Parent, and xref count == trailer Size; a stream's Length is len() of exactly the slice written between stream/endstream; the six metadata fields are stored under the key of the same name from the field of the same name; every font map in which getFont reserves a reference is written in Close with the matching vertical flag; no module type implementing an interface map key is non-comparable (or it is unwrapped before every use); the content-stream fragments form only PDF operators with balanced q/Q, BT/ET and terminated strings (abstract interpretation with inlining); every resource name given to gs/scn/SCN/Tf/Do is registered in the page's resources under the category the operator uses. NOT decided: byte-exact offsets of concrete documents, filter decodability, font program validity, the page count arithmetic.",
 		Assumptions: []string{"fmt.Fprintf writes exactly the formatted bytes and returns their count", "path data produced by Path.ToPDF is treated as an opaque, well-delimited operand sequence (its own operator arities are checked under C11/C12)"},
 		Run: func(c *core.Ctx, r *core.Report) {
+			E5DictCompleteBeforeWrite(c, r)
 			E5CMapBlockLimit(c, r)
 			E5NameMemoScope(c, r)
 			E5StitchingArity(c, r)
@@ -405,6 +408,7 @@ func init() {
 		Title:       "Stroke and Offset realise exact distance offsets of the path",
 		Explanation: "Decides one clause only, 'closed subpaths are joined, not capped' (and its dual: open sub-paths are capped iff stroking): in (*Path).offset the closed flag is set exactly by a Close command, every Capper call is control-dependent on !closed && strokeOpen and placed at the two ends, the Joiner wraps around from the last to the first segment when closed, the closed branch closes both offset curves, and Stroke/Offset pass strokeOpen true/false; plus the angle-unit consistency of the arc rotation passed to ArcTo (E8, whole package). NOT decided: every distance clause (w/2 neighbourhood, miter limit, inner-bend repair, offset direction). Also runs the structural rules on Settle (registered for C02): closed sub-paths are stroked by settling their offset curves.",
 		Run: func(c *core.Ctx, r *core.Report) {
+			E11OffsetVerticesUseOffset(c, r)
 			E2BackwardStepKnownKind(c, r)
 			E11SignFlipPerIteration(c, r)
 			E11ArcJoinDirectionFlags(c, r)
